@@ -203,7 +203,8 @@ def packed_tensor_rules(chk):
             e = U(p.end[1])
             ok = e == f"PackedTensor(pack_weights({t}, bits), bits, {t}.size(), {t}.stride())"
             chk.require("C04.R4", f"{mi.rel}:{p.end[2]}", ok, f"PackedTensor.pack -> `{e}`", "PackedTensor.pack", "pack records geometry", "any packed tensor: unpack cannot restore the shape")
-    asserts = [U(a.test) for a in ast.walk(pack) if isinstance(a, ast.Assert)]
+    # assert conditions as the path engine sees them (private module constants resolved, canonical spelling)
+    asserts = [U(ef[1]) for p_ in paths_of(pack) for ef in p_.effects if ef[0] == "assert"] + [U(a.test) for a in ast.walk(pack) if isinstance(a, ast.Assert)]
     chk.require("C04.R4", f"{mi.rel}:{pack.lineno}", "bits in (2, 4)" in asserts and f"{t}.dtype == torch.uint8" in asserts, f"PackedTensor.pack asserts bits in (2, 4) and a uint8 source ({asserts})", "PackedTensor.pack", "pack preconditions", "bits=8 or a signed source")
     unp = ci.own("unpack")
     for p in paths_of(unp):
